@@ -104,7 +104,7 @@ def make_case(ctx, cid, en, batch=None, mode=None):
             extra.append(enumgen.generated_sexp(en, decl))
     case = {"id": cid, "en": en, "decl": decl, "files": files0, "mode": lay["mode"], "spread": lay["spread"], "edit": edit,
             "runs": runs, "rerun": rerun,
-            "oracle": {".": enumgen.oracle_c04(en, decl, win)} if decl else {},
+            "oracle": {".": enumgen.oracle_c04(en, decl, win, enumgen.str_probes(ctx.rng, T, decl))} if decl else {},
             "sexp": enumgen.case_sexp(cid, "c04", en, extra), "cmd": "shoot enum " + " ".join(lay["sel"]),
             "variants": variants, "shape": en.get("shape") if en.get("shape") in VARIANTS else cl}
 
@@ -276,6 +276,8 @@ def run(ctx, obl):
                 "output (generated files are never input: same expectation); the output is compiled with the package and all six methods executed for every declared value and every "
                 "value of a window (min-3..max+3, every gap, 0, +-1, the type's min and max); up to four re-declarations of the constants "
                 "(unchanged / one value changed / two values swapped / an edit of the original spec) are compiled against the un-regenerated file. "
+                "after a history of shoot.ParseEnum / TryParseEnum calls with differently-cased, prefixed, listed (\"A, B\") and unknown spellings the "
+                "agreement observations are taken AGAIN (values2, strings2, vmap2, smap2, valid2): the tables are a function of the declaration; "
                 "non-trivial = distinct declaration with at least two constants outside Out" +
                 ("; thorough adds every sequence of at most four specs over the six spec forms (%d blocks)" % nex if nex else ""))
     res.exhaustive = bool(nex)
